@@ -1,7 +1,9 @@
 package chain
 
 import (
+	"crypto/ecdsa"
 	"fmt"
+	ethcrypto "github.com/ethereum/go-ethereum/crypto"
 
 	"cosmossdk.io/math"
 	sdk "github.com/cosmos/cosmos-sdk/types"
@@ -87,3 +89,16 @@ func (c *Chain) LastPowers() (map[string]int64, int64, error) {
 	}
 	return out, tot.Int64(), nil
 }
+
+// EthSign signs a 32-byte hash the way compass / pigeon do ("\x19Ethereum Signed Message:\n32" prefix).
+func EthSign(key *ecdsa.PrivateKey, hash []byte) []byte {
+	protected := ethcrypto.Keccak256(append([]byte("\x19Ethereum Signed Message:\n32"), hash...))
+	sig, err := ethcrypto.Sign(protected, key)
+	if err != nil {
+		panic(err)
+	}
+	return sig
+}
+
+// TurnstoneQueue is the consensus queue name of a remote chain's message queue.
+func TurnstoneQueue(chainRef string) string { return "evm/" + chainRef + "/evm-turnstone-message" }
